@@ -12,7 +12,8 @@ import os
 import re
 import vlib
 
-PROOF_MODULES = []   # the C10 .v files are compiled by build_coq below (not yet in coq/_CoqProject)
+# top-level proof modules (make builds their dependencies: RuleSpec, the 25 RS_<Class> files, RulesAll ...)
+PROOF_MODULES = ["C10/DiffSound.vo", "C10/DiffAbsent.vo", "C10/DiffCache.vo", "C10/DiffFresh.vo", "C10/DiffPolyProofs.vo"]
 
 RULE_CLASSES = ["Sin", "Cos", "Tan", "Cot", "Sec", "Csc", "ASin", "ACos", "ATan", "ACot", "ASec", "ACsc",
                 "Sinh", "Cosh", "Tanh", "Coth", "Sech", "Csch", "ASinh", "ACosh", "ATanh", "ACoth", "ASech", "ACsch", "Log"]
@@ -45,9 +46,16 @@ def translate(ctx):
     return rc == 0
 
 
+def listed_in_coqproject():
+    try:
+        return "C10/DiffModel.v" in open(os.path.join(vlib.COQ, "_CoqProject")).read()
+    except OSError:
+        return False
+
+
 def build_coq(ctx):
-    """compile the C10 modules that are stale, stage by stage (until they are listed in coq/_CoqProject);
-    a module that no longer compiles is a broken proof, and its dependents fail with it"""
+    """fallback while the C10 files are not listed in coq/_CoqProject: compile the stale modules stage by
+    stage; a module that no longer compiles is a broken proof, and its dependents fail with it"""
     from concurrent.futures import ThreadPoolExecutor
     ok = True
     shared = ["Expr/Guards.vo", "Expr/NumProofs.vo", "Gen/TypeCodes.vo"]
@@ -444,8 +452,11 @@ def build(ctx):
 def run(ctx):
     translate(ctx)
     ctx.gate(["C10"])
-    build_coq(ctx)
-    ctx.prove(PROOF_MODULES, OBLIGATIONS)
+    if listed_in_coqproject():
+        ctx.prove(PROOF_MODULES, OBLIGATIONS)
+    else:
+        build_coq(ctx)
+        ctx.prove([], OBLIGATIONS)
     drv, model = build(ctx)
     n = 420 if ctx.tier == "quick" else 6000
     cases = list(CORPUS) + class_cases() + gen_cases(ctx.rng, ctx.tier, n)
@@ -477,7 +488,6 @@ def run(ctx):
         "polynomial classes: UIntPoly / URatPoly / MIntPoly are modelled on their dictionaries (own case family P; theorems for UIntPoly and URatPoly); "
         "UExprPoly by the oracle only (diff of the object against diff of its symbolic form); MExprPoly, GaloisField, FunctionWrapper, matrices, "
         "series: not covered",
-        "the C10 Coq modules are compiled by the check itself (build_coq) until they are listed in coq/_CoqProject",
     ]
 
 
